@@ -45,6 +45,7 @@ class St:
         b = a if b is None else b
         s = self.copy()
         s.gen += 1
+        s.truth.pop("$curr", None)
         if a is None or a < 0:
             s.nm = s.gen
         s.lo = None if s.lo is None else s.lo + a
@@ -116,7 +117,9 @@ class Analyzer:
                 return [(st, st.truth[e.id])]
             return [(st, None)]
         if isinstance(e, ast.Attribute):
-            if isinstance(e.value, ast.Name) and e.value.id == "self" and e.attr == "_index":
+            if isinstance(e.value, ast.Name) and e.value.id == "self" and e.attr in ("_index", "_curr"):
+                # self._curr is the token AT self._index (distinct objects per position, proved by the cursor contracts):
+                # for snapshots and equality tests it stands for the index
                 return [(st, ("idx", st.lo, st.hi))]
             return [(s, None) for s, _ in self.ev(e.value, st)]
         if isinstance(e, ast.UnaryOp):
@@ -191,7 +194,7 @@ class Analyzer:
             return [(st, (("nres",) + v[1:]) if isinstance(e.ops[0], ast.Is) else v)]
         if isinstance(e, ast.Compare) and len(e.ops) == 1 and isinstance(e.ops[0], (ast.Eq, ast.NotEq)):
             def is_idx(x):
-                return isinstance(x, ast.Attribute) and isinstance(x.value, ast.Name) and x.value.id == "self" and x.attr == "_index"
+                return isinstance(x, ast.Attribute) and isinstance(x.value, ast.Name) and x.value.id == "self" and x.attr in ("_index", "_curr")
 
             l, r = e.left, e.comparators[0]
             nm = r if is_idx(l) else (l if is_idx(r) else None)
@@ -368,7 +371,26 @@ class Analyzer:
                         s2.lo, s2.hi = None, None
                     outs.append((s2, None))
             return self._dd(outs)
-        if is_self_method and name in ("_is_connected", "_find_sql", "_add_comments", "raise_error", "_warn_unsupported", "validate_expression"):
+        if is_self_method and name == "_is_connected":
+            outs = []
+            for s in states:
+                t = s.copy()
+                t.truth["$curr"] = True  # _is_connected() is `self._prev and self._curr and adjacent`: a current token exists
+                outs += [(t, True), (s, False)]
+            return outs
+        if is_self_method and name == "_advance_any":
+            ign = any(k.arg == "ignore_reserved" and isinstance(k.value, ast.Constant) and k.value.value is True for k in e.keywords)
+            outs = []
+            for s in states:
+                if ign and s.truth.get("$curr"):
+                    outs.append((s.shift(1), None))  # `if self._curr and (ignore_reserved or ...)`: advances
+                else:
+                    outs += [(s, None), (s.shift(1), None)]
+            return self._dd(outs)
+        if is_self_method and name == "_advance_chunk":
+            # the next statement batch: strictly more input consumed (the chunk index increases, contract in parser_cursor.py)
+            return [(s.shift(1), None) for s in states]
+        if is_self_method and name in ("_find_sql", "_add_comments", "raise_error", "_warn_unsupported", "validate_expression"):
             return [(s, None) for s in states]
         if is_self_method and name == "expression":
             return [(s, None) for s in states]
